@@ -521,13 +521,15 @@ def run_lifted_attr_modules(ctx, i, rng):
   import jax
   import jax.numpy as jnp
   import flax.linen as nn
-  tr_name = ['jit', 'remat', 'jit', 'plain'][i % 4]
+  tr_name = ['jit', 'remat', 'jit', 'plain', 'vmap', 'remat'][i % 6]
   n_kids = 2 + (i // 4) % 2
   stream = ['dropout', 'params'][(i // 8) % 2]
   draws_per_leaf = 1 + (i // 16) % 2
-  desc = dict(transform=tr_name, attribute_modules=n_kids, stream=stream, draws_per_leaf=draws_per_leaf)
+  uses = 1 + (i // 3) % 2     # the lifted instance is applied once or twice within one apply: the second use continues the counts
+  fn_style = tr_name == 'remat' and (i // 6) % 2 == 1   # function-style lift on the enclosing module, followed by a draw of that module
+  desc = dict(transform=tr_name, attribute_modules=n_kids, stream=stream, draws_per_leaf=draws_per_leaf, uses=uses, function_style=fn_style)
   with ctx.case('linen.lifted_attr', i, desc, nontrivial=tr_name != 'plain'):
-    key = (tr_name, n_kids, stream, draws_per_leaf)
+    key = (tr_name, n_kids, stream, draws_per_leaf, uses, fn_style)
     if key not in _LIFTATTR:
       class Leaf(nn.Module):
         @nn.compact
@@ -540,14 +542,21 @@ def run_lifted_attr_modules(ctx, i, rng):
         return jnp.concatenate([getattr(self, f)(x) for f in fields] + [jax.random.key_data(self.make_rng(stream))[None]])
 
       Outer = type('Outer', (nn.Module,), {'__annotations__': {f: nn.Module for f in fields}, '__call__': nn.compact(call)})
-      O = {'jit': nn.jit, 'remat': nn.remat, 'plain': (lambda c: c)}[tr_name](Outer)
+      O = {'jit': nn.jit, 'remat': nn.remat, 'plain': (lambda c: c),
+           'vmap': (lambda c: nn.vmap(c, in_axes=None, out_axes=0, axis_size=1, variable_axes={'params': None}, split_rngs={'params': False, 'dropout': False}))}[tr_name](Outer)
 
       class Top(nn.Module):
         @nn.compact
         def __call__(self, x):
+          if fn_style:
+            def body(mdl, x):
+              return jnp.stack([jax.random.key_data(mdl.make_rng(stream)) for _ in range(draws_per_leaf)])
+            parts = [nn.remat(body)(self, x) for _ in range(uses)]
+            return jnp.concatenate(parts + [jax.random.key_data(self.make_rng(stream))[None]])
           kids = {f: Leaf(name='kid_%s' % f) for f in fields}
-          inner = O(**kids, name='o')(x)
-          return jnp.concatenate([inner, jax.random.key_data(self.make_rng(stream))[None]])
+          mod = O(**kids, name='o')
+          parts = [mod(x).reshape((-1, 2)) for _ in range(uses)]
+          return jnp.concatenate(parts + [jax.random.key_data(self.make_rng(stream))[None]])
       _LIFTATTR[key] = Top
     Top = _LIFTATTR[key]
     rngs = {'params': jax.random.key(i), 'dropout': jax.random.key(500 + i)}
@@ -562,7 +571,7 @@ def run_lifted_attr_modules(ctx, i, rng):
 
 def run(ctx):
   log = DrawLog(ctx)
-  for i in ctx.indices(32 if ctx.tier == 'quick' else 64, 'linen.lifted_attr'):
+  for i in ctx.indices(48 if ctx.tier == 'quick' else 96, 'linen.lifted_attr'):
     run_lifted_attr_modules(ctx, i, ctx.rng('lifted_attr', i))
   for i in ctx.indices(18 if ctx.tier == 'quick' else 120, 'linen.jit'):
     run_jit(ctx, i, ctx.rng('jit', i))
